@@ -69,6 +69,7 @@ type c09Scenario struct {
 	stranded     bool
 	handlerWait  func(val string)
 	stalledInfo  string
+	decoyRan     []int // values a callee ran with that was installed on an Invokable only AFTER the Invoke call
 	strandedInfo string
 	settleAt     uint64
 	closeAt      uint64
@@ -331,9 +332,13 @@ func (sc *c09Scenario) Run(s *simrt.Sim) {
 						inv = worker.NewDefaultInvokable[int](nil, nil).SetWorkerPool(pool).SetCallee(func(int) { job() })
 					}
 					rec.sub = h.Do(name, "Invoke", rec.id, func() (interface{}, error) { inv.Invoke(rec.id); return nil, nil })
+					// the Invokable object is re-targeted right away (it is reused for something else): the job that
+					// was submitted is still the old callee applied to the old value
+					inv.SetCallee(func(v int) { sc.decoyRan = append(sc.decoyRan, v) })
 				case "InvokeWithTimeout":
 					inv := worker.NewDefaultInvokable[int](pool, func(int) { job() })
 					rec.sub = h.Do(name, "InvokeWithTimeout", rec.id, func() (interface{}, error) { return sb.T, inv.InvokeWithTimeout(rec.id, sb.T) })
+					inv.SetCallee(func(v int) { sc.decoyRan = append(sc.decoyRan, v) })
 				}
 				if sb.Pause > 0 {
 					s.Sleep(sb.Pause)
@@ -553,6 +558,9 @@ func (sc *c09Scenario) Check(res *simrt.Result) []Violation {
 	}
 	if accepted >= 2 {
 		sc.probes["accepted>=2"]++
+	}
+	if len(sc.decoyRan) > 0 {
+		add("at-most-once", "invokable-ran-a-callee-installed-after-the-invoke", fmt.Sprintf("an Invokable was given another callee right after Invoke/InvokeWithTimeout returned; that later callee ran with %v although nothing was invoked on it (the submitted job is the callee of the time of the call)", sc.decoyRan))
 	}
 	if sc.stalledInfo != "" && sc.stranded {
 		add("panic-isolation", "pool-stalled-while-the-panic-handler-runs", "a panicking job must not keep later accepted jobs from running, but "+sc.stalledInfo)
